@@ -28,26 +28,43 @@ let hm_hash = ref (fun (_ : key) -> Z0)
 let keq (a : key) (b : key) = (a = b)
 let keyrepr = function KI z -> soz z | KS s -> hex_of_bytes s
 let okeyrepr = function None -> "0" | Some k -> keyrepr k
-let parse_key s = if !hm_kind = 2 then KS (bytes_of_hex s) else KI (z_of_string s)
+let parse_key s = if !hm_kind = 2 || !hm_kind = 4 then KS (bytes_of_hex s) else KI (z_of_string s)
 let flog m =
   let l = h_log m in
   let s = if l = [] then "-" else String.concat "," (List.map (fun (k, v) -> okeyrepr k ^ "/" ^ soz v) l) in
-  " f=" ^ s ^ (if h_fault m then " FAULT" else "")
+  (* kind skv: kv_free_fn = iwhmap_kv_free, the harness sees no callback *)
+  " f=" ^ (if !hm_kind = 4 then "-" else s) ^ (if h_fault m then " FAULT" else "")
 let two32 = z_of_string "4294967296"
 let two64 = z_of_string "18446744073709551616"
 let zmod a b = snd (Z.div_eucl a b)
 
+(* `hm iter`: iwhmap_iter_init + iwhmap_iter_next step by step *)
+let hm_iter_line m =
+  let ((l, itf), c) = hiter_steps m in
+  let s = "it=" ^ join "," (fun (k, v) -> keyrepr k ^ ":" ^ soz v) l ^
+          Printf.sprintf " st=%d ib=%d ie=%s" (ion c) (ion itf.it_bucket) (soz itf.it_entry) ^
+          (if itf.it_fault then " FAULT" else "") in
+  (s, itf)
+
 let hm_line = function
   | ["new"; kind; lru] ->
-    let k = (match kind with "u32" -> 0 | "u64" -> 1 | "str" -> 2 | _ -> 3) in
+    let k = (match kind with "u32" -> 0 | "u64" -> 1 | "str" -> 2 | "skv" -> 4 | _ -> 3) in
     hm_kind := k;
     hm_hash := (fun key -> match key with
       | KI z -> if k = 0 then hash_u32 z else if k = 1 then hash_u64 z else hash_ptr z
       | KS s -> hash_str s);
     let l = int_of_string lru in
     let ikp = if k = 0 then cONT_hmap_u32_ikp <> Z0 else if k = 1 then cONT_hmap_u64_ikp <> Z0 else false in
-    hm := Some (hnew (if l >= 0 then Some (z_of_int l) else None) ikp);
+    hm := hcreate true (if l >= 0 then Some (z_of_int l) else None) ikp;
     "ok"
+  | ["create0"] -> (match (hcreate false None false : key hmap option) with None -> "null=1" | Some _ -> "null=0")
+  | ["null"] | ["kvfree"] -> "ok"
+  | ["iter0"] ->
+    let m = hnew None false in
+    let (it1, r1) = iter_next false m (iter_init false) in
+    let (it2, r2) = iter_next false m it1 in
+    Printf.sprintf "r=%d%d ib=%d ie=%s%s" (if r1 then 1 else 0) (if r2 then 1 else 0) (ion it2.it_bucket)
+      (soz it2.it_entry) (if it2.it_fault then " FAULT" else "")
   | op :: args ->
     (match !hm with
      | None -> "nohm"
@@ -70,7 +87,15 @@ let hm_line = function
           let m' = hclear m in
           hm := Some m'; "n=" ^ soz (h_count m') ^ flog m'
         | "count", [] -> "n=" ^ soz (h_count m)
-        | "iter", [] -> "it=" ^ join "," (fun (k, v) -> keyrepr k ^ ":" ^ soz v) (hiter m)
+        | "iter", [] -> fst (hm_iter_line m)
+        | "iterx", [] ->
+          (* the call after the end: answered by the guarded variant (false, iterator unchanged); the code reads
+             past the bucket array there (C18_hmap_iter_next_after_end_refuted) *)
+          let (s, itf) = hm_iter_line m in
+          let (it2, again) = iter_next true m itf in
+          s ^ Printf.sprintf " again=%d ib2=%d" (if again then 1 else 0) (ion it2.it_bucket)
+        | "lruinit", [n] -> hm := Some (hlruinit m (zmod (z_of_string n) two32)); "ok"
+        | "evmax", [n] -> if hevmax m (zmod (z_of_string n) two32) then "r=1" else "r=0"
         | "lru", [] ->
           let (ks, ok) = hlru m in
           Printf.sprintf "wf=%d lru=%s" (if ok then 1 else 0) (join "," keyrepr ks)
@@ -106,7 +131,7 @@ let ul_state l =
 let urcs = function U_OK -> "0" | U_OOB -> "oob"
 
 let ul_line = function
-  | ["new"; us; il] ->
+  | ["new"; us; il] | ["newinit"; us; il] ->
     let l = u_init (nat (int_of_string il)) (nat (int_of_string us)) in
     ul_brief := false;
     ul := Some l; "ok" ^ ul_state l
@@ -135,6 +160,9 @@ let ul_line = function
            | None -> "rc=oob v=nil same=1")
         | "clone", [] -> "c" ^ ul_state (u_clone l)
         | "copy", [il] -> "rc=0" ^ ul_state (u_copy l (u_init (nat (int_of_string il)) l.u_usize))
+        | "copy", [il; pre] ->
+          let tgt = List.fold_left (fun t h -> u_push t (unit_of h us)) (u_init (nat (int_of_string il)) l.u_usize) (String.split_on_char '.' pre) in
+          "rc=0" ^ ul_state (u_copy l tgt)
         | "clear", [] -> fin (u_clear l, U_OK)
         | "reset", [] -> fin (u_reset l, U_OK)
         | "sort", [] -> fin (u_sort l, U_OK)
@@ -179,8 +207,13 @@ let rb_state r =
 
 let rb_line = function
   | ["new"; us; len] ->
+    (* capacity 0 (only generated with VERIF_CONT_OPEN=1): the model creates the degenerate ring as the unchanged code does *)
     let r = rb_create [] (z_of_string len) in
     rbs := Some (r, int_of_string us); rb_state r
+  | ["wrap"; us; bl] ->
+    (match rb_wrap [] (z_of_string bl) (z_of_string us) with
+     | None -> rbs := None; "null"
+     | Some r -> rbs := Some (r, int_of_string us); Printf.sprintf "len=%s inbuf=1 %s" (soz r.r_len) (rb_state r))
   | op :: args ->
     (match !rbs with
      | None -> "norb"
@@ -206,8 +239,23 @@ let xrcs = function X_OK -> "0" | X_OOB -> "oob"
 let rec cstr = function [] -> [] | b :: t -> if b = Z0 then [] else b :: cstr t
 let fmt_sd s v = cstr (bytes_of_hex s) @ List.map (fun c -> z_of_int (Char.code c)) (List.of_seq (String.to_seq (":" ^ string_of_int v)))
 
+let xu : xud ref = ref xu_new
+let tokz = function None -> "0" | Some t -> string_of_int (ion t)
+(* the destructor calls since the last answer *)
+let xu_seen = ref 0
+let xu_tail (log : nat option list) =
+  let l = drop !xu_seen log in
+  xu_seen := List.length log;
+  " ud=" ^ (if l = [] then "-" else String.concat "," (List.map tokz l))
+
 let xs_line = function
-  | ["new"; siz] -> let x = x_create (nat (int_of_string siz)) in xs := Some x; "ok" ^ xs_state x
+  | ["new"; siz] -> let x = x_create (nat (int_of_string siz)) in xs := Some x; xu := xu_new; xu_seen := 0; "ok" ^ xs_state x
+  | ["empty"] -> let x = x_create aUNIT in xs := Some x; xu := xu_new; xu_seen := 0; "ok" ^ xs_state x
+  | ["palloc"; s; v] ->
+    let txt = fmt_sd s (int_of_string v) in
+    let x = x_printf_alloc txt in
+    "v=" ^ hex_of_bytes (x_data x) ^ " us=" ^ (if ion x.x_asize >= List.length txt + 1 && x_term x = Z0 then "1" else "0")
+  | ["newprintf"; s; v] -> "c" ^ xs_state (x_new_printf (fmt_sd s (int_of_string v)))
   | op :: args ->
     (match !xs with
      | None -> "noxs"
@@ -230,7 +278,22 @@ let xs_line = function
           let l = min (List.length b) asz in
           let buf = List.init (max asz 1) (fun i -> if i < l then List.nth b i else z_of_int 170) in
           "c" ^ xs_state (x_wrap buf (nat l) (nat asz))
-        | "destroy", [] -> xs := None; "d"
+        | "setsize", [k; fill; tb] ->
+          let k = int_of_string k and old = ion x.x_size in
+          let x1 = x_set_size x (nat k) in
+          let x2 = if k > old then x_poke x1 (nat old) (List.init (k - old) (fun _ -> z_of_int (int_of_string fill land 255)) @ [z_of_int (int_of_string tb land 255)]) else x1 in
+          fin (x2, X_OK)
+        | "cat2null", [] -> fin (x, X_OK)
+        | "ud", [t; fn] ->
+          let t = int_of_string t in
+          xu := xu_set !xu (if t = 0 then None else Some (nat t)) (fn <> "0");
+          "ok" ^ xu_tail !xu.xu_log
+        | "udget", [] -> "v=" ^ tokz (xu_get !xu) ^ xu_tail !xu.xu_log
+        | "uddetach", [] -> let (u', d) = xu_detach !xu in xu := u'; "v=" ^ tokz d ^ xu_tail u'.xu_log
+        | "keepptr", [] ->
+          let r = Printf.sprintf "d v=%s z=%d" (hex_of_bytes (x_data x)) (if x_term x = Z0 then 1 else 0) ^ xu_tail (xu_destroy !xu) in
+          xs := None; xu := xu_new; xu_seen := 0; r
+        | "destroy", [] -> let r = "d" ^ xu_tail (xu_destroy !xu) in xs := None; xu := xu_new; xu_seen := 0; r
         | _ -> "?"))
   | _ -> "?"
 
@@ -253,7 +316,7 @@ let plrcs = function PL_OK -> "0" | PL_OOB -> "oob"
 let slots = function Some b -> hexi b | None -> "nil"
 
 let pl_line = function
-  | ["new"; an] -> let l = pl_init (nat (int_of_string an)) in pl_brief := false; pl := Some l; "ok" ^ pl_state l
+  | ["new"; an] | ["newinit"; an] -> let l = pl_init (nat (int_of_string an)) in pl_brief := false; pl := Some l; "ok" ^ pl_state l
   | ["brief"; b] -> pl_brief := (int_of_string b <> 0); "ok"
   | op :: args ->
     (match !pl with
@@ -264,12 +327,12 @@ let pl_line = function
        (match op, args with
         | "push", [h] -> fin (pl_push l (bytes_of_hex h), PL_OK)
         | "unshift", [h] -> fin (pl_unshift l (bytes_of_hex h), PL_OK)
-        | "pop", [] -> finv (pl_pop l)
-        | "shift", [] -> finv (pl_shift l)
-        | "rm", [i] -> finv (pl_remove l (nat (int_of_string i)))
+        | "pop", ([] | ["n"]) -> finv (pl_pop l)
+        | "shift", ([] | ["n"]) -> finv (pl_shift l)
+        | "rm", ([i] | [i; "n"]) -> finv (pl_remove l (nat (int_of_string i)))
         | "insert", [i; h] -> fin (pl_insert l (nat (int_of_string i)) (bytes_of_hex h))
         | "set", [i; h] -> fin (pl_set l (nat (int_of_string i)) (bytes_of_hex h))
-        | "at", [i] ->
+        | "at", ([i] | [i; "n"]) ->
           let (rc, v) = pl_at l (nat (int_of_string i)) in
           "rc=" ^ plrcs rc ^ " v=" ^ (if rc = PL_OK then slots v else "nil") ^ " same=1"
         | "clone", [] -> "c" ^ pl_state (pl_clone l)
@@ -284,14 +347,27 @@ let av : tree ref = ref Leaf
 let rec av_text = function
   | Leaf -> "."
   | Node (l, k, bf, r) -> Printf.sprintf "(%s %s %s %s)" (soz k) (soz bf) (av_text l) (av_text r)
+(* io / ro / po come from the stepwise parent-pointer walks of UT/AvlWalk.v (iwavl_first/next/prev/last_in_order,
+   iwavl_first/next_in_postorder), not from the recursive in-order function *)
 let av_state t =
-  let io = av_inorder t in
-  Printf.sprintf " n=%d t=%s pp=1 io=%s ro=%s" (List.length io) (av_text t) (join "," soz io) (join "," soz (List.rev io))
+  let io = av_walk_fwd t in
+  Printf.sprintf " n=%d t=%s pp=1 io=%s ro=%s" (ion (av_size t)) (av_text t) (join "," soz io) (join "," soz (av_walk_bwd t))
 let optz = function Some z -> soz z | None -> "nil"
+(* parent key of the node holding k: the nearest frame of the position the search reaches *)
+let rec av_parent_of t k par =
+  match t with
+  | Leaf -> None
+  | Node (l, x, _, r) -> if Z.ltb k x then av_parent_of l k (Some x) else if Z.ltb x k then av_parent_of r k (Some x) else Some par
 
 let av_line = function
   | ["new"] -> av := Leaf; "ok"
-  | ["destroy"] -> av := Leaf; "d"
+  | ["destroy"] -> let t = !av in av := Leaf; "d po=" ^ join "," soz (av_walk_post t)
+  | ["post"] -> Printf.sprintf "io=%s ro=%s po=%s" (join "," soz (av_walk_fwd !av)) (join "," soz (av_walk_bwd !av)) (join "," soz (av_walk_post !av))
+  | ["lookn"; k] ->
+    let z = z_of_string k in
+    let f = av_lookup !av z in
+    Printf.sprintf "r=%d unl=1,0 par=%s" (if f then 1 else 0)
+      (match av_parent_of !av z None with Some (Some p) -> soz p | _ -> "nil")
   | ["ins"; k] -> let (t, ex) = av_insert !av (z_of_string k) in av := t; (if ex then "r=1" else "r=0") ^ av_state t
   | ["rm"; k] -> let (t, was) = av_remove !av (z_of_string k) in av := t; (if was then "r=1" else "r=0") ^ av_state t
   | ["find"; k] ->
@@ -333,7 +409,29 @@ let po_line = function
             let items = String.split_on_char '.' l in
             let (p', _) = p_cstrarr p (List.map (fun h -> nat (hexlen h)) items) in
             po := Some p'; "v=" ^ l ^ " term=1" ^ po_state p'
-        | "split", _ -> po := None; "nomodel"
+        | "printfva", [h; v] ->
+          let txt = fmt_sd h (int_of_string v) in
+          let (p', _) = p_alloc p (nat (List.length txt + 1)) in
+          po := Some p'; "v=" ^ hex_of_bytes txt ^ po_state p'
+        | "strdupx", [k; h] ->
+          (* iwpool_strdup / strdup2 stop at the first NUL byte (strlen), iwpool_strndup2 copies len bytes *)
+          let b = bytes_of_hex h in
+          let s = cstr b in
+          let len = if k = "0" then List.length b else List.length s in
+          let (p', w) = p_strndup p (nat len) in
+          po := Some p'; "rc=0 v=" ^ hex_of_bytes s ^ po_where w ^ po_state p'
+        | "split", [h; sc; ws] ->
+          let hay = cstr (bytes_of_hex h) and seps = cstr (bytes_of_hex sc) in
+          let (toks, flt) = split_string hay seps (ws <> "0") in
+          let (p', _) = p_split p hay seps (ws <> "0") in
+          po := Some p';
+          "v=" ^ (if toks = [] then "none" else String.concat "." (List.map hex_of_bytes toks)) ^ (if flt then " FAULT" else "") ^ po_state p'
+        | "psplit", [h; v; sc; ws] ->
+          let hay = fmt_sd h (int_of_string v) and seps = cstr (bytes_of_hex sc) in
+          let (toks, flt) = split_string hay seps (ws <> "0") in
+          let (p', _) = p_split p hay seps (ws <> "0") in
+          po := Some p';
+          "v=" ^ (if toks = [] then "none" else String.concat "." (List.map hex_of_bytes toks)) ^ (if flt then " FAULT" else "") ^ po_state p'
         | "destroy", _ -> "nomodel"
         | _ -> "nomodel"))
   | _ -> "?"
